@@ -9,7 +9,7 @@
 (* A line nothing explains disables every action: the trace is rejected    *)
 (* and TLC's diameter is the number of the offending line.                 *)
 (***************************************************************************)
-EXTENDS Exec, Json, IOUtils, TLC
+EXTENDS Proj, Json, IOUtils, TLC
 
 CONSTANT Deviations,       \* names of the deviations of open known findings
          CheckMem          \* TRUE: the logged memory figure must equal MemOf of the logged dataset (C19)
@@ -18,25 +18,6 @@ Trace == ndJsonDeserialize(IOEnv.TRACE)
 
 VARIABLES l, st, dev, nskip
 vars == <<l, st, dev, nskip>>
-
-RECURSIVE ProjVal(_)
-ProjVal(j) ==
-    CASE j.k = "str"  -> VStr(j.b)
-      [] j.k = "int"  -> IF "big" \in DOMAIN j THEN j ELSE VInt(j.n)
-      [] j.k = "flt"  -> IF "nonquarter" \in DOMAIN j THEN j ELSE [k |-> "flt", q |-> j.q, inf |-> j.inf]
-      [] j.k = "list" -> VList(j.l)
-      [] j.k = "hash" -> VHash([f \in {p.f : p \in Range(j.h)} |->
-                                   ProjVal((CHOOSE p \in Range(j.h) : p.f = f).v)])
-      [] j.k = "set"  -> IF j.card = Cardinality(Range(j.s)) THEN VSet(Range(j.s)) ELSE j
-      [] j.k = "zset" -> VZSet([m \in {p.m : p \in Range(j.z)} |->
-                                   LET p == CHOOSE p \in Range(j.z) : p.m = m IN
-                                   IF "nonquarter" \in DOMAIN p THEN [q |-> p.q, inf |-> p.inf, nonquarter |-> p.nonquarter]
-                                   ELSE [q |-> p.q, inf |-> p.inf]])
-      [] OTHER        -> j
-
-ProjStore(js) ==
-    [x \in {<<e.db, e.key>> : e \in Range(js)} |->
-        LET e == CHOOSE e \in Range(js) : e.db = x[1] /\ e.key = x[2] IN Ent(ProjVal(e.v), e.d)]
 
 Outcome(e, D) == Exec([S |-> st, now |-> e.now, db |-> e.db, D |-> D], e.cmd, e.r)
 
